@@ -363,7 +363,19 @@ func runC02(sc *SessScript) *sim.Outcome {
 		case "injplain":
 			// an unencrypted line injected by the network: must not pass as the peer's text
 			rcv := op.W & 1
-			c := s.W.Receive(rcv, append([]byte("please send the password "), filler(0, op.L%30, op.F)...))
+			inj := append([]byte("please send the password "), filler(0, op.L%30, op.F)...)
+			switch op.X % 4 {
+			case 1: // with a whitespace tag behind it, as a peer that offers OTR would write it
+				inj = append(append(inj, ref.WSBase...), ref.WSV3...)
+				o.Class("plaintext-injected-with-tag")
+			case 2:
+				inj = append(append(append(inj, ref.WSBase...), ref.WSV2...), ref.WSV3...)
+				o.Class("plaintext-injected-with-tag")
+			case 3:
+				inj = append(append(append([]byte{}, ref.WSBase...), ref.WSV2...), inj...)
+				o.Class("plaintext-injected-with-tag")
+			}
+			c := s.W.Receive(rcv, inj)
 			s.W.Q[rcv] = filterOut(s.W.Q[rcv], c)
 			if c.EncBef {
 				o.Class("plaintext-injected-while-encrypted")
@@ -489,14 +501,21 @@ func TestProp_C02_Attack(t *testing.T) {
 	kinds := []string{"pp", "pp", "send", "send", "send", "dl", "dl", "holdback", "holdback", "atk", "atk", "atk", "atk", "atk", "atk", "rekey", "smp", "ans", "xk", "age", "injplain", "injplain"}
 	rapid.Check(t, func(rt *rapid.T) {
 		sc := &SessScript{Cfg: genSessCfg(rt)}
-		if rapid.IntRange(0, 3).Draw(rt, "wsstart") == 0 {
+		switch rapid.IntRange(0, 3).Draw(rt, "wsstart") {
+		case 0:
 			sc.PolA, sc.PolB = sim.PolSendWS, sim.PolWSStart
+		case 1:
+			// query-started, but both take up whitespace tags
+			sc.PolA, sc.PolB = sim.PolWSStart, sim.PolWSStart
 		}
 		n := rapid.IntRange(2, 40).Draw(rt, "nops")
 		for i := 0; i < n; i++ {
 			op := genSOp(rt, kinds, 300)
 			if op.K == "atk" {
 				op = genAtk(rt)
+			}
+			if op.K == "injplain" {
+				op.X = rapid.IntRange(0, 3).Draw(rt, "tagform")
 			}
 			sc.Ops = append(sc.Ops, op)
 		}
